@@ -45,3 +45,15 @@ claim("C17", "Lean 4 theorems (induction over word lists; the target does not oc
       "Proved for the model, for every non-empty word list and every target of capacity >= 2n with any contents: from_words = <big-endian bytes of the words, n> (no dependence on the target), len/get (every index value)/iteration "
       "reproduce the words, every register PDU encoded from the value equals the specification's bytes of the words alone; too-small targets are errors (Props/C17.lean).",
       "Correspondence: n = 0..130, 255..257, 300, 1000 x capacities 2n-1..4n+2 x fills, indices up to usize::MAX, then the PDUs built from the value.")
+
+claim("C10", "Lean 4 theorems (generic scan-loop lemmas instantiated for the four scanners via the specification's length table) + differential correspondence over every prefix length",
+      "Proved for the model, for EVERY well-formed frame (all function codes of the length table, all payload sizes): every strict non-empty prefix gives 'incomplete' at the scanner and at the ADU decoder, "
+      "the whole frame is found at (0, length), and any appended bytes do not change the result — TCP both directions and RTU responses at full strength; RTU requests as ..._partial excluding function codes 0x0F/0x10 "
+      "(open finding D4, with defect witnesses) (Props/C10.lean).",
+      "Well-formed = Spec/Frames.lean (PDU complete per the specification's length table; RTU CRC is the model's crc16, which C06 ties to CRC-16/MODBUS).")
+
+claim("C11", "Lean 4 theorem by induction over the chunk list (all arrival schedules at once) + differential correspondence of the receive loop",
+      "Proved for a model of the caller-side receive loop: for every list of frames the scanner handles (C10's Good) and EVERY way of cutting the stream into pieces (empty pieces allowed, any number of frames), "
+      "the receiver ends with exactly the original frames in order, an empty buffer and no fault (reassembly_all_chunkings); instantiated for TCP requests/responses and RTU responses; RTU request streams as ..._partial "
+      "without 0x0F/0x10 frames (open finding D4, witness) (Props/C11.lean).",
+      "The receive loop (append piece, scan, remove start+size, repeat) lives in the caller; it is modelled in Model/Receiver.lean and the harness runs the same loop around the crate's decode.")
